@@ -392,6 +392,26 @@ def o_totality(case):
             exp = M.verdict(z, payload, Q_expected=Q)
         if got != exp:
             _bad("verify:verdict!=ref:expected-%s" % exp, "%s = %r, reference verdict %r" % (what, got, exp))
+        # recovery on the same adversarial payload: whatever key pair_for_message_hash returns must be the key the
+        # reference recovers (SEC1 4.1.6), and it must refuse (EncodingError) exactly when there is no such key -
+        # otherwise verify() would answer True for some key on an unrecoverable signature
+        from pycoin.encoding.exceptions import EncodingError as _EE
+        if len(payload) == 65 and 27 <= payload[0] < 35:
+            hh = payload[0] - 27
+            refQ = M.recover(z, int.from_bytes(payload[1:33], "big"), int.from_bytes(payload[33:], "big"), hh & 3)
+            def _recover():
+                try:
+                    return net.msg.pair_for_message_hash(text, z)
+                except _EE:          # the documented refusal
+                    return None
+            gotpair = total(_recover, "pair_for_message_hash(%r)" % text[:100])
+            gotQ = None if gotpair is None else (gotpair[0][0], gotpair[0][1])
+            if gotQ == (None, None):
+                gotQ = None
+            if gotQ != refQ:
+                _bad("recover:pair!=ref:%s" % ("ref-unrecoverable" if refQ is None else "ref-recoverable"),
+                     "%s pair_for_message_hash(%r, z) -> %r, reference recovery %r (header %d)" % (code, text[:100], gotQ, refQ, payload[0]))
+            labels.append("recovery=" + ("none" if refQ is None else "key"))
         if len(payload) == 65:
             labels.append("hdr-in-range" if 27 <= payload[0] < 35 else "hdr-out-of-range")
             if 27 <= payload[0] < 35:
